@@ -61,9 +61,16 @@ pub fn programs(tier: Tier) -> ProgramSet {
         // the error function is generic over its argument (an associated function taking `impl Into<String>`, a free function
         // taking `S: AsRef<str>`)
         if e.k <= 1 {
-            for f in ["vf_core::MyErr::new_any", "vf_core::my_err_any", "LOWERCASE-TYPE"] {
+            for f in ["vf_core::MyErr::new_any", "vf_core::my_err_any", "LOWERCASE-TYPE", "COERCED"] {
                 let mut spec = e.spec.clone();
                 spec.parse_err = false;
+                if f == "COERCED" {
+                    // the function's return type only coerces to the declared error type
+                    spec.extra_attrs.push("#[strum(parse_err_ty = Box<dyn core::fmt::Debug>, parse_err_fn = vf_core::my_err_boxed)]".into());
+                    let source = render(&spec);
+                    out.push(Program { idx: 0, label: format!("{} [error function returning Box<MyErr> for parse_err_ty = Box<dyn Debug>]", e.label), k: e.k + 1, spec, aux: json!(null), source });
+                    continue;
+                }
                 if f == "LOWERCASE-TYPE" {
                     // an error type whose name starts with a lower-case letter (an alias, as `errno_t` or a primitive would be)
                     spec.extra_attrs.push("#[strum(parse_err_ty = vf_core::my_err_t, parse_err_fn = vf_core::my_err_any)]".into());
@@ -190,7 +197,8 @@ pub fn render(spec: &EnumSpec) -> String {
     let first_ty_arg = spec.generics_inst().trim_start_matches('<').trim_end_matches('>').split(", ").find(|a| !a.starts_with('\'')).unwrap_or("u8").to_string();
     let err_g = format!("vf_core::MyErrG<{}>", first_ty_arg);
     let inferred = spec.extra_attrs.iter().any(|a| a.contains("my_err_generic") || a.contains("new_any") || a.contains("my_err_any"));
-    let err_ty = if generic_err { err_g.as_str() } else if spec.parse_err || inferred { "vf_core::MyErr" } else { "strum::ParseError" };
+    let coerced = spec.extra_attrs.iter().any(|a| a.contains("my_err_boxed"));
+    let err_ty = if coerced { "Box<dyn core::fmt::Debug>" } else if generic_err { err_g.as_str() } else if spec.parse_err || inferred { "vf_core::MyErr" } else { "strum::ParseError" };
     if spec.variants.iter().any(|v| v.default && !v.disabled) {
         // with a default variant no input is rejected; which error type the impl names is not observable through a result and is
         // not asserted (the unchanged tree names strum::ParseError there)
@@ -205,7 +213,7 @@ pub fn render(spec: &EnumSpec) -> String {
 
 pub fn explore(ctx: &mut Ctx, from_str: &mut dyn FnMut(&str) -> Obs, try_from: &mut dyn FnMut(&str) -> Obs) {
     let spec = ctx.spec().clone();
-    let custom = spec.parse_err || spec.extra_attrs.iter().any(|a| a.contains("MyErrG") || a.contains("my_err_generic") || a.contains("new_any") || a.contains("my_err_any"));
+    let custom = spec.parse_err || spec.extra_attrs.iter().any(|a| a.contains("MyErrG") || a.contains("my_err_generic") || a.contains("new_any") || a.contains("my_err_any") || a.contains("my_err_boxed"));
     let inp = family_inputs(ctx);
     // counter discipline, checked around every single call
     let mut f1 = |s: &str| -> Obs {
